@@ -467,6 +467,7 @@ func runC11(c *Ctx) {
 	opts := &TreeOpts{MaxDepth: 3, MaxWidth: 4, Keys: r.SimpleKey}
 	c.padDerived()
 	c.indexSpellings("C11")
+	c.nonASCIIKeysDerived()
 	for i := 0; i < c.N(400, 6000); i++ {
 		m.Case("write-sequences")
 		t := r.Container(opts, "[{"[r.Intn(2)])
